@@ -47,7 +47,10 @@ Special ==
     hub        |-> { "p-vsettle-lone", "x-vsettle", "x-vsettle-late", "p-vfund2-lone", "x-vfund2", "x-vfund2-late",
                      \* a second virtual channel in which X owns nothing (2 / 0): honest proposals, and proposals whose index
                      \* map is one entry short (the unmapped participant is the one that owns nothing)
-                     "p-vfund2z-lone", "x-vfund2z", "p-vfund2z-short", "x-vfund2z-short" } ]
+                     "p-vfund2z-lone", "x-vfund2z", "p-vfund2z-short", "x-vfund2z-short",
+                     \* an ordinary update OF THE VIRTUAL CHANNEL ITSELF (which H knows only as its hub), valid and signed by the
+                     \* end point that sends it; H's user accepts what it is shown
+                     "x-vchan-update", "p-vchan-update" } ]
 SpecialOf(pt) == IF pt \in DOMAIN Special THEN Special[pt] ELSE {}
 (* classes that need the channel with P *)
 NeedsChannel(c) == c \in PeerClasses \ {"p-propacc-unknown", "p-ledgerprop-again"}
